@@ -32,6 +32,10 @@ type mcWallet struct {
 	Pledging   *common.VersionedTransaction
 	PledgeN    int
 	Chain      int
+	// an admitted (locked + persisted) but unfinalized spend, and whether a
+	// finalization-path takeover of its input has happened
+	Pending   *common.VersionedTransaction
+	TakenOver bool
 }
 
 type mcUTXO struct {
